@@ -2,6 +2,8 @@ package main
 
 import (
 	"encoding/json"
+	"io"
+	"log"
 	"fmt"
 	"os"
 	"sort"
@@ -17,6 +19,7 @@ func usage() {
 }
 
 func main() {
+	log.SetOutput(io.Discard) // the repo logs cache warm-ups through the std logger
 	if len(os.Args) < 2 {
 		usage()
 	}
